@@ -255,7 +255,9 @@ class Field(mixin.FieldDomain, abstract.PropertiesData):
         if key is not None:
             return super().del_data_axes(key, default=default)
 
-        return self._del_component("data_axes", default=default)
+        out = self._del_component("data_axes", default=default)
+        self.constructs._field_data_axes = None
+        return out
 
     def get_domain(self):
         """Return the domain.
@@ -607,20 +609,20 @@ class Field(mixin.FieldDomain, abstract.PropertiesData):
             if data is not None:
                 _shape = data.shape
 
+        domain_axes = self.constructs.filter_by_type(
+            "domain_axis", todict=True
+        )
+        axes_shape = []
+        for axis in axes:
+            if axis not in domain_axes:
+                raise ValueError(
+                    "Can't set field construct data axes: Domain axis "
+                    f"{axis!r} doesn't exist"
+                )
+
+            axes_shape.append(domain_axes[axis].get_size(None))
+
         if _shape is not None:
-            domain_axes = self.constructs.filter_by_type(
-                "domain_axis", todict=True
-            )
-            axes_shape = []
-            for axis in axes:
-                if axis not in domain_axes:
-                    raise ValueError(
-                        "Can't set field construct data axes: Domain axis "
-                        f"{axis!r} doesn't exist"
-                    )
-
-                axes_shape.append(domain_axes[axis].get_size())
-
             if _shape != tuple(axes_shape):
                 raise ValueError(
                     "Can't set field construct data axes: Data array shape "
